@@ -136,7 +136,7 @@ func (h *c17BcHooks) build(env *c17Env, c c17Case) (byte, []byte, bool) {
 
 func (h *c17BcHooks) probe(env *c17Env) string {
 	r := h.r[env.name]
-	if !c17WithTimeout(3*time.Second, func() { _, _, _ = r.pool.GetStatus(); _ = r.pool.MaxPeerHeight(); _ = r.store.Height() }) {
+	if !c17WithTimeout(10*time.Second, func() { _, _, _ = r.pool.GetStatus(); _ = r.pool.MaxPeerHeight(); _ = r.store.Height() }) {
 		return "block pool locked"
 	}
 	if env.name == "syncing" && !r.pool.IsRunning() {
